@@ -3,9 +3,11 @@ package main
 import (
 	"bufio"
 	"bytes"
+	"context"
 	"encoding/hex"
 	"encoding/json"
 	"fmt"
+	"io"
 	"math/rand"
 	"os"
 	"os/exec"
@@ -302,8 +304,74 @@ func c04goLegs(c *c04case, rng *rand.Rand) (leg, msg string) {
 	return "", ""
 }
 
+// A decoded header map is a value: it must stay what it was when it was
+// returned, whatever is decoded afterwards and whatever the caller does with
+// the buffer it decoded from.  The last few maps every reader returned are kept
+// and compared again after later cases.
+type retainedMap struct {
+	leg       string
+	got, want map[string]string
+}
+
+var retained []retainedMap
+
+func retain(leg string, got, want map[string]string) {
+	retained = append(retained, retainedMap{leg, got, copyMap(want)})
+	if len(retained) > 24 {
+		retained = retained[len(retained)-24:]
+	}
+}
+
+func recheckRetained() (string, string) {
+	for _, r := range retained {
+		if !mapsEqual(r.got, r.want) {
+			return r.leg + ":map-changed-after-later-reads", "a header map returned earlier no longer equals what was on the wire after later header blocks were decoded (or the receive buffer was reused)"
+		}
+	}
+	return "", ""
+}
+
+// wrappedReaders are the stream shapes a header block may be read through:
+// the plain memory buffer and the buffering wrappers Apache Thrift offers
+// (which answer RemainingBytes for the wrapped transport, not for their own
+// buffer).
+func wrappedReaders(stream []byte) map[string]thrift.TTransport {
+	mem := func() *thrift.TMemoryBuffer {
+		return &thrift.TMemoryBuffer{Buffer: bytes.NewBuffer(append([]byte(nil), stream...))}
+	}
+	framed := thrift.NewTMemoryBuffer()
+	fw := thrift.NewTFramedTransportConf(framed, &thrift.TConfiguration{MaxFrameSize: 1 << 30})
+	fw.Write(stream)
+	fw.Flush(context.Background())
+	return map[string]thrift.TTransport{
+		"buffered4096": thrift.NewTBufferedTransport(mem(), 4096),
+		"buffered64":   thrift.NewTBufferedTransport(mem(), 64),
+		"thriftframed": thrift.NewTFramedTransportConf(framed, &thrift.TConfiguration{MaxFrameSize: 1 << 30}),
+	}
+}
+
 func c04readers(pf *frugal.FProtocolFactory, wname string, w []byte, H map[string]string, payload []byte) (string, string) {
 	stream := append(append([]byte(nil), w...), payload...)
+	// the public stream readers through buffering wrappers
+	for tname, tt := range wrappedReaders(stream) {
+		rc := &mapCtx{}
+		if err := pf.GetProtocol(tt).ReadResponseHeader(rc); err != nil {
+			return wname + "->ReadResponseHeader(" + tname + ")", err.Error()
+		}
+		wantResp := copyMap(H)
+		delete(wantResp, "_opid")
+		if rc.added == nil {
+			rc.added = map[string]string{}
+		}
+		if !mapsEqual(rc.added, wantResp) {
+			return wname + "->ReadResponseHeader(" + tname + ")", "response headers differ from the map on the wire (minus _opid)"
+		}
+		rest := make([]byte, len(payload))
+		if _, err := io.ReadFull(tt, rest); len(payload) > 0 && (err != nil || !bytes.Equal(rest, payload)) {
+			return wname + "->ReadResponseHeader(" + tname + ")", fmt.Sprintf("payload after the headers consumed or altered (%v)", err)
+		}
+		retain(wname+"->ReadResponseHeader("+tname+")", rc.added, wantResp)
+	}
 	// stream reader
 	r := bytes.NewReader(stream)
 	got, err := frugal.VerifReadHeader(r)
@@ -313,6 +381,7 @@ func c04readers(pf *frugal.FProtocolFactory, wname string, w []byte, H map[strin
 	if !mapsEqual(got, H) {
 		return wname + "->readHeader", "map differs"
 	}
+	retain(wname+"->readHeader", got, H)
 	rest := make([]byte, r.Len())
 	r.Read(rest)
 	if !bytes.Equal(rest, payload) {
@@ -359,15 +428,25 @@ func c04readers(pf *frugal.FProtocolFactory, wname string, w []byte, H map[strin
 		if !bytes.Equal(tb.Bytes(), payload) {
 			return wname + "->ReadRequestHeader", "payload after the headers consumed or altered"
 		}
+		retain(wname+"->ReadRequestHeader", gotReq, wantReq)
 	}
-	// frame readers
-	body := stream
+	// frame readers (the caller owns the buffer and reuses it afterwards)
+	body := append([]byte(nil), stream...)
 	got2, err := frugal.VerifGetHeadersFromFrame(body)
 	if err != nil {
 		return wname + "->getHeadersFromFrame", err.Error()
 	}
 	if !mapsEqual(got2, H) {
 		return wname + "->getHeadersFromFrame", "map differs"
+	}
+	for i := range body {
+		body[i] = 0xee
+	}
+	if !mapsEqual(got2, H) {
+		return wname + "->getHeadersFromFrame:map-changed-after-later-reads", "the returned map changed when the caller reused its receive buffer"
+	}
+	if l, m := recheckRetained(); m != "" {
+		return l, m
 	}
 	// NOTE: the unexported, test-only unmarshalFrame is deliberately not a
 	// leg: it is unreachable from any public API and assumes a second size
